@@ -91,13 +91,93 @@ def op_expr(o):
     raise ValueError(o)
 
 
+def scripted_callbacks(case):
+    """does the history install callbacks that call back into the client (op `cs`)?"""
+    return any(o[0] == 'cs' for o in case['ops'])
+
+
 def ops_expr(case):
-    return '[' + '; '.join(op_expr(o) for o in case['ops']) + ']'
+    # for the judges installing a callback script is an operation without effect on the conductor (ConductorReent.plain)
+    return '[' + '; '.join('Tick 0' if o[0] == 'cs' else op_expr(o) for o in case['ops']) + ']'
+
+
+def rops_expr(case):
+    return '[' + '; '.join('RScript %s' % z(o[1]) if o[0] == 'cs' else 'ROp (%s)' % op_expr(o) for o in case['ops']) + ']'
 
 
 def model_expr(case, mode):
     c = case['cfg']
+    if scripted_callbacks(case):
+        return 'rrun_obs %s %s %s %s %s' % (z(c[0]), z(c[1]), z(c[2]), z(c[3]), rops_expr(case))
     return 'run_obs %s %s %s %s %s' % (z(c[0]), z(c[1]), z(c[2]), z(c[3]), ops_expr(case))
+
+
+def reentrant_deadlock(case, obs):
+    """The class of the finding reentrant-call-deadlock: the history is answered up to an operation that hangs while a callback
+    script that calls the client is installed (the last `cs n` before it has n <> 0)."""
+    if isinstance(obs, int) or obs[0] != 'list' or not obs[1]:
+        return False
+    last = obs[1][-1]
+    if isinstance(last, int) or last[0] != 'tuple' or isinstance(last[1][0], int) or last[1][0] != ('app', 'Hang', []):
+        return False
+    i = len(obs[1]) - 1
+    if i >= len(case['ops']):
+        return False
+    script = 0
+    for o in case['ops'][:i]:
+        if o[0] == 'cs':
+            script = o[1]
+    return script != 0 and case['ops'][i][0] != 'cs'
+
+
+def reent_histories(rng, n):
+    """Histories whose callbacks call add / find / release: a plain history with a script installed somewhere (and sometimes
+    taken out again before anything fires)."""
+    out = []
+    for _ in range(n):
+        c = gen_history(rng, 'quick', rng.choice(['protocol', 'faults']))
+        ops = c['ops']
+        if len(ops) < 3:
+            continue
+        i = rng.randrange(1, len(ops))
+        ops = ops[:i] + [['cs', rng.choice([1, 2, 3])]] + ops[i:]
+        if rng.random() < 0.3:
+            j = rng.randrange(i + 1, len(ops) + 1)
+            ops = ops[:j] + [['cs', 0]] + ops[j:]
+        out.append({'kind': 'reentrant', 'cfg': c['cfg'], 'ops': ops[:72]})
+    return out
+
+
+def scripted_reent():
+    H = []
+
+    def h(label, ops, cfg=(0, 1000000, 10000, 5000)):
+        c = {'kind': label, 'cfg': list(cfg), 'ops': [o.split() for o in ops.split(';') if o.strip()]}
+        for o in c['ops']:
+            for j in range(1, len(o)):
+                try:
+                    o[j] = int(o[j])
+                except ValueError:
+                    pass
+        H.append(c)
+    # every kind of callback, each calling add / find / release
+    h('reentrant-on-new-subscription-adds', 'hb 1000000; as 4 9; cs 1; fs 1; w; we sr 1 6; fs 1')
+    h('reentrant-on-new-publication-finds', 'hb 1000000; ap 4 9; cs 2; we pr 1 1 9 5 3 4; fp 1')
+    h('reentrant-available-image-releases', 'hb 1000000; as 4 9; we sr 1 6; fs 1; cs 3; we ai 50 1 2 1')
+    h('reentrant-unavailable-image-adds', 'hb 1000000; as 4 9; we sr 1 6; fs 1; we ai 50 1 2 1; cs 1; we ui 50 1')
+    h('reentrant-counter-handlers', 'hb 1000000; cs 2; we uc 7 7; w')
+    h('reentrant-error-handler-on-stall', 'hb 1000000; ap 1 1; cs 1; tk 5001; hb 1005001; w; ap 1 1')
+    h('reentrant-close-handler', 'hb 1000000; ap 1 1; cs 3; cl; ap 1 1')
+    h('reentrant-drop-subscription-with-images', 'hb 1000000; as 4 9; we sr 1 6; fs 1; we ai 50 1 2 1; cs 2; ds 1; fs 1')
+    h('reentrant-drop-with-inactive-driver', 'hb 1000000; ap 1 1; we pr 1 1 1 5 3 4; fp 1; tk 10001; w; cs 1; dp 1')
+    h('reentrant-channel-endpoint-error', 'hb 1000000; as 4 9; we sr 1 6; cs 1; we er 6 4; fs 1')
+    # a script that is installed but never fires, or is taken out again in time: the plain history
+    h('script-never-fires', 'hb 1000000; cs 1; ap 1 1; as 2 2; fp 1; fs 2; tk 100; w; we os 9; we er 1 3; fp 1; fp 1; cs 0; we sr 2 6; fs 2; cl')
+    h('script-removed-in-time', 'hb 1000000; as 4 9; cs 3; w; cs 0; we sr 1 6; fs 1; cs 2; ps 1; pp 1; fs 1; cs 0; cl')
+    return H
+
+
+
 
 
 def _is_chan_err(c):
